@@ -793,12 +793,37 @@ class _DictWriter:
 
 
 class _DictReader:
+    """rows come from the harness; reader options that change cell values are modelled, any other option is refused"""
     def __init__(self, f, *a, **kw):
         self.f = f
         self.fieldnames = f.fieldnames
+        self.skipinitialspace = bool(kw.pop('skipinitialspace', False))
+        for k in ('dialect', 'restkey', 'restval', 'fieldnames'):
+            kw.pop(k, None)
+        if kw or a:
+            raise Unsupported('csv.DictReader options %r' % (sorted(kw) or a,))
+
+    def _cell(self, v):
+        if not self.skipinitialspace:
+            return v
+        # csv drops the blanks that follow a delimiter: an (unquoted) cell that begins with k blanks loses them
+        if isinstance(v, builtins.str):
+            return v.lstrip(' ')
+        if isinstance(v, TRope):
+            n = v.length()
+            k = core.cur().choose('leading_blanks', 3)
+            if not (k <= n):
+                raise core.PathAbort('cell shorter than its leading blanks')
+            ps = rope.nonempty_pieces(v)
+            if k and not (builtins.len(ps) == 1 and isinstance(ps[0], Opq)):
+                raise core.PathAbort('only opaque cells can start with blanks')
+            for i in builtins.range(k):
+                core.assume(s_eq(ps[0].src.peek(ps[0].lo + i, ps[0].chain), 32))
+            return v[k:] if k else v
+        return v
 
     def __iter__(self):
-        return iter([dict(r) for r in self.f.rows])
+        return iter([{c: self._cell(x) for c, x in r.items()} for r in self.f.rows])
 
 
 class CsvStub:
